@@ -1019,6 +1019,22 @@ func ruleTubeCap(c *Ctx, rule string) {
 		}
 	}
 	quo, ok := size.(*ssa.BinOp)
+	if call, isCall := size.(*ssa.Call); isCall && !ok {
+		// a helper that divides its argument by TubeOffset (tubeIndex)
+		if sf := call.Call.StaticCallee(); sf != nil && len(sf.Blocks) == 1 {
+			if ret, isRet := sf.Blocks[0].Instrs[len(sf.Blocks[0].Instrs)-1].(*ssa.Return); isRet && len(ret.Results) == 1 {
+				if q, isQ := ret.Results[0].(*ssa.BinOp); isQ && q.Op == token.QUO {
+					if s, isOff := filterAlias(q.Y); isOff && s == "tubeOffset" {
+						for i, prm := range sf.Params {
+							if q.X == ssa.Value(prm) && i < len(call.Call.Args) {
+								quo, ok = &ssa.BinOp{Op: token.QUO, X: call.Call.Args[i], Y: q.Y}, true
+							}
+						}
+					}
+				}
+			}
+		}
+	}
 	if !ok || quo.Op != token.QUO {
 		c.und(rule, key, mk.Pos(), "the ring size is not of the form A/TubeOffset + constant")
 		return
